@@ -102,6 +102,11 @@ func (e *Exec) runBody(fn *ssa.Function, args []Val, binds []Val, st *State, pc 
 		states = append(states, r.st)
 	}
 	out := e.mergeStates(conds, states)
+	if depth > 0 {
+		// what follows an inlined call is executed only if the call returned (partial correctness,
+		// assumption A4): the merged state is defined under the return conditions only
+		e.assume(mkImp(pc, mkOr(conds...)))
+	}
 	var res Val
 	rt := fn.Signature.Results()
 	if rt.Len() > 0 {
@@ -478,6 +483,8 @@ func (fr *Frame) loopWrites(li *loopInfo) (keys map[string]bool, all bool) {
 					for _, k := range mapKeys(cc.Args[0].Type()) {
 						keys[k] = true
 					}
+				case "close":
+					keys["X:chclosed"] = true
 				}
 				return
 			}
